@@ -5,6 +5,9 @@ package ratelimit
 
 // theta = timePerToken (ns per token). Potential of a bucket at time t: availableTokens*theta + (t - lastRefresh).
 
+//@ spec kdiv(a int, b int) int
+//@ axiom kdiv_def: forall a int, b int :: a >= 0 && b >= 1 ==> kdiv(a, b) == a / b
+
 //@ pred bucketOK(tb *tokenBucket) = tb != nil && tb.timePerToken >= 1 && tb.burst >= 0 && 0 <= tb.availableTokens && tb.availableTokens <= tb.burst && tb.lastRefresh <= lastclock && tb.lastConsumed >= 0
 //@ pred refillOf(tb *tokenBucket, k int) = min(old(tb.burst), old(tb.availableTokens) + k)
 //@ pred refreshed(tb *tokenBucket, k int) = tb.availableTokens == min(old(tb.burst), old(tb.availableTokens) + k) && tb.lastRefresh == ite(k == 0, old(tb.lastRefresh), lastclock) && tb.timePerToken == old(tb.timePerToken) && tb.burst == old(tb.burst) && tb.period == old(tb.period)
@@ -22,7 +25,7 @@ package ratelimit
 //@   requires bucketOK(tb)
 //@   modifies tb.availableTokens, tb.lastRefresh
 //@   ensures ok: bucketOK(tb)
-//@   ensures refreshed: refreshed(tb, (lastclock - old(tb.lastRefresh)) / old(tb.timePerToken))
+//@   ensures refreshed: refreshed(tb, kdiv(lastclock - old(tb.lastRefresh), old(tb.timePerToken)))
 //@   ensures potential_not_increased: tb.availableTokens * tb.timePerToken + (lastclock - tb.lastRefresh) <= old(tb.availableTokens) * tb.timePerToken + (lastclock - old(tb.lastRefresh))
 //@   ensures next_token_pending: lastclock - tb.lastRefresh < tb.timePerToken || tb.availableTokens == tb.burst
 //@   ensures refresh_monotone: old(tb.lastRefresh) <= tb.lastRefresh && tb.lastRefresh <= lastclock
@@ -35,10 +38,10 @@ package ratelimit
 //@   modifies tb.availableTokens, tb.lastRefresh, tb.lastConsumed
 //@   ensures ok: bucketOK(tb)
 //@   ensures params_kept: tb.timePerToken == old(tb.timePerToken) && tb.burst == old(tb.burst) && tb.period == old(tb.period)
-//@   ensures too_big_refused: tokens > tb.burst ==> result1 != nil && tb.lastConsumed == 0 && refreshed(tb, (lastclock - old(tb.lastRefresh)) / old(tb.timePerToken))
-//@   ensures admitted_iff: (result1 == nil && result0 == 0) <==> (tokens <= tb.burst && refillOf(tb, (lastclock - old(tb.lastRefresh)) / old(tb.timePerToken)) >= tokens)
-//@   ensures admitted_debits: result1 == nil && result0 == 0 ==> tb.lastConsumed == tokens && tb.availableTokens == refillOf(tb, (lastclock - old(tb.lastRefresh)) / old(tb.timePerToken)) - tokens && tb.lastRefresh == ite((lastclock - old(tb.lastRefresh)) / old(tb.timePerToken) == 0, old(tb.lastRefresh), lastclock)
-//@   ensures refused_costs_nothing: !(result1 == nil && result0 == 0) ==> tb.lastConsumed == 0 && refreshed(tb, (lastclock - old(tb.lastRefresh)) / old(tb.timePerToken))
+//@   ensures too_big_refused: tokens > tb.burst ==> result1 != nil && tb.lastConsumed == 0 && refreshed(tb, kdiv(lastclock - old(tb.lastRefresh), old(tb.timePerToken)))
+//@   ensures admitted_iff: (result1 == nil && result0 == 0) <==> (tokens <= tb.burst && refillOf(tb, kdiv(lastclock - old(tb.lastRefresh), old(tb.timePerToken))) >= tokens)
+//@   ensures admitted_debits: result1 == nil && result0 == 0 ==> tb.lastConsumed == tokens && tb.availableTokens == refillOf(tb, kdiv(lastclock - old(tb.lastRefresh), old(tb.timePerToken))) - tokens && tb.lastRefresh == ite(kdiv(lastclock - old(tb.lastRefresh), old(tb.timePerToken)) == 0, old(tb.lastRefresh), lastclock)
+//@   ensures refused_costs_nothing: !(result1 == nil && result0 == 0) ==> tb.lastConsumed == 0 && refreshed(tb, kdiv(lastclock - old(tb.lastRefresh), old(tb.timePerToken)))
 //@   ensures delay_is_missing_tokens: result1 == nil && tokens <= tb.burst && tb.availableTokens < tokens && tb.lastConsumed == 0 ==> result0 == (tokens - tb.availableTokens) * tb.timePerToken && result0 > 0
 //@   ensures error_only_when_too_big: result1 != nil ==> tokens > tb.burst
 
@@ -61,7 +64,7 @@ package ratelimit
 // ---- bucket sets ---------------------------------------------------------------------------
 
 //@ pred setOK(tbs *TokenBucketSet) = tbs != nil && tbs.buckets != nil && (forall k int :: in(k, tbs.buckets) ==> bucketOK(tbs.buckets[k]) && allocated(tbs.buckets[k]) && tbs.buckets[k].period == k)
-//@ pred kOf(tb *tokenBucket) = (lastclock - old(tb.lastRefresh)) / old(tb.timePerToken)
+//@ pred kOf(tb *tokenBucket) = kdiv(lastclock - old(tb.lastRefresh), old(tb.timePerToken))
 //@ pred admits(tb *tokenBucket, tokens int) = tokens <= old(tb.burst) && refillOf(tb, kOf(tb)) >= tokens
 //@ pred debited(tb *tokenBucket, tokens int) = tb.lastConsumed == tokens && tb.availableTokens == refillOf(tb, kOf(tb)) - tokens && tb.lastRefresh == ite(kOf(tb) == 0, old(tb.lastRefresh), lastclock) && tb.timePerToken == old(tb.timePerToken) && tb.burst == old(tb.burst) && tb.period == old(tb.period)
 //@ pred untouched(tb *tokenBucket) = tb.availableTokens == old(tb.availableTokens) && tb.lastRefresh == old(tb.lastRefresh) && tb.lastConsumed == old(tb.lastConsumed) && tb.timePerToken == old(tb.timePerToken) && tb.burst == old(tb.burst) && tb.period == old(tb.period)
@@ -80,6 +83,7 @@ package ratelimit
 //@   props C03 C13
 //@   holds TokenLimiter.mutex
 //@   assume clock_stable
+//@   noaxioms kdiv_def
 //@   requires setOK(tbs) && tokens >= 0
 //@   modifies tokenBucket.availableTokens, tokenBucket.lastRefresh, tokenBucket.lastConsumed
 //@   ensures keeps_set: setOK(tbs)
@@ -88,7 +92,7 @@ package ratelimit
 //@   ensures refused_has_reason: !(result1 == nil && result0 <= 0) ==> (exists k int :: in(k, tbs.buckets) && !admits(tbs.buckets[k], tokens))
 //@   ensures error_means_too_big: result1 != nil ==> (exists k int :: in(k, tbs.buckets) && tokens > old(tbs.buckets[k].burst))
 //@   ensures delay_covers_every_bucket: result1 == nil && result0 > 0 ==> (forall k int :: in(k, tbs.buckets) && tokens <= tbs.buckets[k].burst ==> result0 >= (tokens - tbs.buckets[k].availableTokens) * tbs.buckets[k].timePerToken)
-//@   ensures others_untouched: forall tb *tokenBucket :: allocated(tb) && !owns(tbs, tb) ==> untouched(tb)
+//@   ensures others_untouched: forall tb *tokenBucket :: old(allocated(tb)) && !owns(tbs, tb) ==> untouched(tb)
 //@   loop 1 invariant forall k int :: visited(k) ==> in(k, tbs.buckets)
 //@   loop 1 invariant forall k int :: in(k, tbs.buckets) ==> allocated(tbs.buckets[k]) && tbs.buckets[k].period == k && bucketOK(tbs.buckets[k])
 //@   loop 1 invariant forall k int :: in(k, tbs.buckets) && !visited(k) ==> untouched(tbs.buckets[k])
@@ -98,7 +102,7 @@ package ratelimit
 //@   loop 1 invariant firstErr != nil ==> (exists k int :: visited(k) && tokens > old(tbs.buckets[k].burst))
 //@   loop 1 invariant firstErr == nil ==> (forall k int :: visited(k) && !admits(tbs.buckets[k], tokens) ==> maxDelay >= (tokens - tbs.buckets[k].availableTokens) * tbs.buckets[k].timePerToken)
 //@   loop 1 invariant maxDelay >= -1
-//@   loop 1 invariant forall tb *tokenBucket :: allocated(tb) && !owns(tbs, tb) ==> untouched(tb)
+//@   loop 1 invariant forall tb *tokenBucket :: old(allocated(tb)) && !owns(tbs, tb) ==> untouched(tb)
 //@   loop 2 invariant forall k int :: visited(k) ==> in(k, tbs.buckets)
 //@   loop 2 invariant forall k int :: in(k, tbs.buckets) ==> allocated(tbs.buckets[k]) && tbs.buckets[k].period == k && tbs.buckets[k] != nil
 //@   loop 2 invariant forall k int :: in(k, tbs.buckets) && visited(k) ==> onlyRefreshed(tbs.buckets[k])
@@ -106,4 +110,83 @@ package ratelimit
 //@   loop 2 invariant exists k int :: in(k, tbs.buckets) && !admits(tbs.buckets[k], tokens)
 //@   loop 2 invariant firstErr != nil ==> (exists k int :: in(k, tbs.buckets) && tokens > old(tbs.buckets[k].burst))
 //@   loop 2 invariant firstErr == nil ==> (forall k int :: in(k, tbs.buckets) && !admits(tbs.buckets[k], tokens) ==> maxDelay >= (tokens - refillOf(tbs.buckets[k], kOf(tbs.buckets[k]))) * old(tbs.buckets[k].timePerToken))
-//@   loop 2 invariant forall tb *tokenBucket :: allocated(tb) && !owns(tbs, tb) ==> untouched(tb)
+//@   loop 2 invariant forall tb *tokenBucket :: old(allocated(tb)) && !owns(tbs, tb) ==> untouched(tb)
+
+// ---- the limiter -------------------------------------------------------------------------------
+
+//@ pred ratesOK(rs *RateSet) = rs != nil && rs.m != nil && len(rs.m) >= 1 && (forall k int :: in(k, rs.m) ==> rs.m[k] != nil && allocated(rs.m[k]) && rs.m[k].period == k && k >= 1 && rs.m[k].average >= 1 && rs.m[k].burst >= 1 && k / rs.m[k].average >= 1)
+//@ pred conforms(tbs *TokenBucketSet, rs *RateSet) = forall k int :: (in(k, tbs.buckets) <==> in(k, rs.m)) && (in(k, rs.m) ==> tbs.buckets[k].timePerToken == k / rs.m[k].average && tbs.buckets[k].burst == rs.m[k].burst)
+//@ pred ttlOf(tbs *TokenBucketSet) = (tbs.maxPeriod / 1000000000) * 10 + 1
+
+//@ type RateSet
+//@   stable m
+
+//@ pred setOf(tl *TokenLimiter, k string) = asref(tl.bucketSets.vval[k], "*TokenBucketSet")
+//@ pred entriesTyped(tl *TokenLimiter) = tl.bucketSets != nil && (forall k string :: tl.bucketSets.vdom[k] ==> tl.bucketSets.vtag[k] == typeid("*TokenBucketSet") && allocated(setOf(tl, k)) && setOf(tl, k) != nil && setOf(tl, k).buckets != nil && allocated(setOf(tl, k).buckets))
+//@ pred entriesBucketsOK(tl *TokenLimiter) = forall k string, p int :: tl.bucketSets.vdom[k] && in(p, setOf(tl, k).buckets) ==> bucketOK(setOf(tl, k).buckets[p]) && allocated(setOf(tl, k).buckets[p]) && setOf(tl, k).buckets[p].period == p
+//@ pred disjointSets(tl *TokenLimiter) = forall k1 string, k2 string :: tl.bucketSets.vdom[k1] && tl.bucketSets.vdom[k2] && k1 != k2 ==> setOf(tl, k1) != setOf(tl, k2) && setOf(tl, k1).buckets != setOf(tl, k2).buckets && (forall p int :: in(p, setOf(tl, k1).buckets) && in(p, setOf(tl, k2).buckets) ==> setOf(tl, k1).buckets[p] != setOf(tl, k2).buckets[p])
+
+//@ type TokenLimiter
+//@   immutable defaultRates extract extractRates bucketSets errHandler capacity next log
+//@   setup Wrap
+//@   guards mutex: collections.TTLMap.vdom collections.TTLMap.vtag collections.TTLMap.vval collections.TTLMap.vexp collections.TTLMap.vlen
+//@   lockinv mutex (tl): entries_typed: entriesTyped(tl)
+//@   lockinv mutex (tl): entries_buckets_ok: entriesBucketsOK(tl)
+//@   lockinv mutex (tl): entries_disjoint: disjointSets(tl)
+
+//@ func NewTokenBucketSet
+//@   props C03 C13
+//@   trusted
+//@   readsclock
+//@   requires ratesOK(rates)
+//@   ensures fresh_set: result != nil && fresh(result) && fresh(result.buckets) && allocated(result.buckets) && setOK(result) && conforms(result, rates)
+//@   ensures full: forall k int :: in(k, result.buckets) ==> fresh(result.buckets[k]) && result.buckets[k].availableTokens == result.buckets[k].burst && result.buckets[k].lastRefresh == lastclock && result.buckets[k].lastConsumed == 0
+//@   ensures max_period: (forall k int :: in(k, result.buckets) ==> k <= result.maxPeriod) && in(result.maxPeriod, result.buckets)
+
+//@ func (*TokenBucketSet).Update
+//@   props C03 C13
+//@   trusted
+//@   readsclock
+//@   requires setOK(tbs) && ratesOK(rates)
+//@   modifies tbs.maxPeriod, mapof(tbs.buckets), tokenBucket.timePerToken, tokenBucket.burst, tokenBucket.availableTokens
+//@   ensures keeps_set: setOK(tbs) && conforms(tbs, rates) && tbs.buckets == old(tbs.buckets)
+//@   ensures buckets_kept_or_fresh: forall k int :: in(k, tbs.buckets) ==> (old(in(k, tbs.buckets)) && tbs.buckets[k] == old(tbs.buckets[k])) || fresh(tbs.buckets[k])
+//@   ensures conforming_buckets_kept: old(conforms(tbs, rates)) ==> (forall k int :: in(k, tbs.buckets) ==> tbs.buckets[k] == old(tbs.buckets[k]) && untouched(tbs.buckets[k])) && tbs.maxPeriod == old(tbs.maxPeriod)
+//@   ensures others_untouched: forall tb *tokenBucket :: old(allocated(tb)) && !old(owns(tbs, tb)) ==> untouched(tb)
+
+//@ func (*TokenLimiter).resolveRates
+//@   props C03 C13
+//@   holds tl.mutex
+//@   requires ratesOK(tl.defaultRates)
+//@   modifies everything
+//@   ensures rates_ok: ratesOK(result)
+//@   ensures default_without_extractor: tl.extractRates == nil ==> result == tl.defaultRates
+
+//@ iface ratelimit.RateExtractor.Extract
+//@   params self r
+//@   modifies everything
+//@   maypanic
+//@   ensures rates_or_error: result1 == nil ==> result0 != nil && result0.m != nil && (len(result0.m) == 0 || ratesOK(result0))
+
+//@ func (*RateSet).Add
+//@   props C03 C13
+//@   requires rs != nil && rs.m != nil
+//@   modifies mapof(rs.m)
+//@   ensures rejects_nonpositive: (period <= 0 || average <= 0 || burst <= 0) ==> result != nil
+//@   ensures stored: result == nil ==> in(period, rs.m) && rs.m[period].period == period && rs.m[period].average == average && rs.m[period].burst == burst && fresh(rs.m[period])
+//@   ensures token_interval_positive: result == nil ==> period / average >= 1
+
+//@ func (*TokenLimiter).consumeRates
+//@   props C03 C13 C14
+//@   atomic tl.mutex
+//@   assume clock_stable
+//@   requires ratesOK(tl.defaultRates) && amount >= 0
+//@   modifies everything
+//@   ensures tracked_afterwards: tl.bucketSets.vdom[source]
+//@   ensures ttl_refreshed: tl.bucketSets.vexp[source] == (lastclock + ttlOf(setOf(tl, source)) * 1000000000) / 1000000000
+//@   ensures live_entry_reused: old(live(tl.bucketSets, source)) ==> tl.bucketSets.vval[source] == old(tl.bucketSets.vval[source])
+//@   ensures admitted_debits_every_rate: result == nil ==> (forall p int :: in(p, setOf(tl, source).buckets) ==> setOf(tl, source).buckets[p].lastConsumed == amount)
+//@   ensures refused_debits_nothing: result != nil ==> (forall p int :: in(p, setOf(tl, source).buckets) ==> setOf(tl, source).buckets[p].lastConsumed == 0)
+//@   ensures too_big_is_plain_error: result != nil && !istype(result, "*MaxRateError") ==> (exists p int :: in(p, setOf(tl, source).buckets) && amount > setOf(tl, source).buckets[p].burst)
+//@   ensures delay_error: calls(Consume) == 1 && callres(Consume, 0, 1) == nil && callres(Consume, 0, 0) > 0 ==> istype(result, "*MaxRateError") && asref(payload(result), "*MaxRateError").Delay == callres(Consume, 0, 0)
+//@   ensures decision_is_the_buckets: (result == nil) <==> (calls(Consume) == 1 && callres(Consume, 0, 1) == nil && callres(Consume, 0, 0) <= 0)
